@@ -251,6 +251,48 @@ func (sc *specCtx) lookupLocal(name string) (types.Object, bool) {
 	return nil, false
 }
 
+// resolveName looks a contract identifier up at the clause's position, with rename repair against the
+// baseline declarations of the function (baseline/locals.json).
+func (sc *specCtx) resolveName(name string) (types.Object, bool) {
+	obj, ok := sc.lookupLocal(name)
+	if ok && obj.Parent() != nil && (obj.Parent() == types.Universe || (obj.Pkg() != nil && obj.Parent() == obj.Pkg().Scope())) {
+		// resolved to a package-level or predeclared object: if the baseline knows this name as a
+		// variable of the function that has since been renamed, the contract means that variable
+		if r := sc.u.eng.renames(sc.u.renameFn()); r != nil {
+			if nw, has := r.old2new[name]; has {
+				if o2, ok2 := sc.lookupLocal(nw); ok2 {
+					obj = o2
+				}
+			}
+		}
+	}
+	if ok && obj.Parent() != nil && obj.Parent() != types.Universe {
+		// resolved to a variable of an enclosing scope while the baseline knows this name as a variable that
+		// has since been renamed and whose new declaration is visible here in a scope nested inside: at
+		// baseline time that inner declaration shadowed the outer one, the contract means the inner variable
+		if r := sc.u.eng.renames(sc.u.renameFn()); r != nil {
+			if nw, has := r.old2new[name]; has {
+				if o2, ok2 := sc.lookupLocal(nw); ok2 && o2 != obj && o2.Parent() != nil && scopeInside(o2.Parent(), obj.Parent()) {
+					obj = o2
+					sc.u.abstractions[fmt.Sprintf("contract name %q resolved to the renamed inner variable %q (rename repair against the baseline)", name, nw)] = true
+				}
+			}
+		}
+	}
+	if !ok {
+		// renamed since the baseline?
+		if r := sc.u.eng.renames(sc.u.renameFn()); r != nil {
+			if nw, has := r.old2new[name]; has {
+				obj, ok = sc.lookupLocal(nw)
+				if ok {
+					sc.u.abstractions[fmt.Sprintf("contract name %q resolved to the renamed variable %q (rename repair against the baseline)", name, nw)] = true
+				}
+			}
+		}
+	}
+	return obj, ok
+}
+
 func (sc *specCtx) ident(name string, subs map[string]SpecExpr) Value {
 	if sub, ok := subs[name]; ok {
 		return sc.eval(sub)
@@ -279,29 +321,7 @@ func (sc *specCtx) ident(name string, subs map[string]SpecExpr) Value {
 	case "nil":
 		return scalar(types.Typ[types.UntypedNil], IntLit(0))
 	}
-	obj, ok := sc.lookupLocal(name)
-	if ok && obj.Parent() != nil && (obj.Parent() == types.Universe || (obj.Pkg() != nil && obj.Parent() == obj.Pkg().Scope())) {
-		// resolved to a package-level or predeclared object: if the baseline knows this name as a
-		// variable of the function that has since been renamed, the contract means that variable
-		if r := sc.u.eng.renames(sc.u.fn); r != nil {
-			if nw, has := r.old2new[name]; has {
-				if o2, ok2 := sc.lookupLocal(nw); ok2 {
-					obj = o2
-				}
-			}
-		}
-	}
-	if !ok {
-		// renamed since the baseline?
-		if r := sc.u.eng.renames(sc.u.fn); r != nil {
-			if nw, has := r.old2new[name]; has {
-				obj, ok = sc.lookupLocal(nw)
-				if ok {
-					sc.u.abstractions[fmt.Sprintf("contract name %q resolved to the renamed variable %q (rename repair against the baseline)", name, nw)] = true
-				}
-			}
-		}
-	}
+	obj, ok := sc.resolveName(name)
 	if !ok {
 		sc.errorf("unknown name %q in %q (at %v valid=%v)", name, sc.c.Text, sc.u.eng.root.Fset.Position(sc.pos), sc.pos.IsValid())
 	}
@@ -355,7 +375,7 @@ func (sc *specCtx) lv(e ast.Expr, subs map[string]SpecExpr) (LV, bool) {
 		if _, ok := sc.env[x.Name]; ok {
 			return LV{}, false
 		}
-		if obj, ok := sc.lookupLocal(x.Name); ok {
+		if obj, ok := sc.resolveName(x.Name); ok {
 			if o, ok := obj.(*types.Var); ok {
 				return sc.u.varLV(sc.cur, o), true
 			}
@@ -960,4 +980,14 @@ func (u *Unit) assumeAxioms(st *State) {
 type axiomTerm struct {
 	name string
 	t    Term
+}
+
+// scopeInside: inner is a strict descendant of outer.
+func scopeInside(inner, outer *types.Scope) bool {
+	for s := inner.Parent(); s != nil; s = s.Parent() {
+		if s == outer {
+			return true
+		}
+	}
+	return false
 }
